@@ -22,7 +22,7 @@ META = {
     'level': 'exploration',
     'rule': ('histories (<= 14 steps) of set_location(loc) and SetContextState proposals (new / update / associate / '
              'disassociate / re-associate an old state / several states at once / two associated states / unknown state '
-             'handle) on tests/mdib_two_mds.xml with the tutorial role providers; non-trivial = >= 3 association changes '
+             'handle) on tests/mdib_two_mds.xml (plus an ensemble and a workflow context descriptor) with the tutorial role providers; non-trivial = >= 3 association changes '
              'on one descriptor, or a proposal touching >= 2 states; distinct by history. part sched: 2-3 concurrent '
              'context changes (SetContextState by different consumers processed in the request thread, set_location by '
              'the application) after a short history, interleaved at lock granularity by the cooperative scheduler; '
@@ -31,7 +31,7 @@ META = {
                     'SdcProvider.set_location'],
 }
 
-FIXTURE = 'mdib_two_mds.xml'
+FIXTURE = 'mdib_two_mds_ctx.xml'  # (the repository's fixture plus an ensemble and a workflow context descriptor)
 ASSOC = ['Assoc', 'Dis', 'No', 'Pre']
 
 
@@ -42,7 +42,7 @@ def st_history():
         'given': st.one_of(st.none(), st.sampled_from(['Ann', 'Bob', 'Ünal', ''])),
         # which context descriptor the proposal belongs to: 0 = the operation target (patient), 1.. = the others
         # (location, ...) of the same MDS - "for one or several context descriptors"
-        'descr': st.sampled_from([0, 0, 0, 1, 1, 2]),
+        'descr': st.sampled_from([0, 0, 0, 1, 1, 2, 2, 3]),
     })
     step = st.one_of(
         st.tuples(st.just('set_ctx'), st.lists(proposal, min_size=1, max_size=3)).map(list),
@@ -248,7 +248,7 @@ def st_sched_case():
     consumers, processed in the request thread, and set_location by the application) under the cooperative scheduler."""
     proposal = st.fixed_dictionaries({
         'target': st.one_of(st.just('new'), st.integers(0, 5)), 'assoc': st.sampled_from(['Assoc', 'Assoc', 'Dis', 'No']),
-        'given': st.one_of(st.none(), st.sampled_from(['Ann', 'Bob'])), 'descr': st.sampled_from([0, 0, 1, 1, 2])})
+        'given': st.one_of(st.none(), st.sampled_from(['Ann', 'Bob'])), 'descr': st.sampled_from([0, 0, 1, 1, 2, 3])})
     task = st.one_of(st.tuples(st.just('set_ctx'), st.lists(proposal, min_size=1, max_size=2)).map(list),
                      st.tuples(st.just('set_location'), MP.st_location()).map(list))
     return st.fixed_dictionaries({
